@@ -6,6 +6,7 @@ import (
 	"encoding/gob"
 	"errors"
 	"io"
+	"math"
 	"runtime"
 	"sort"
 	"sync"
@@ -311,7 +312,12 @@ type evictLeastEntry struct {
 
 func (c *shardedMap) evictMostExpired(evictFraction float64) int {
 	return c.evictLeast(evictFraction, func(i *TraitEntry) int64 {
-		return atomic.LoadInt64(&i.E)
+		e := atomic.LoadInt64(&i.E)
+		if e == 0 {
+			return math.MaxInt64 // Entries without expiration are the last to evict.
+		}
+
+		return e
 	})
 }
 
